@@ -283,7 +283,7 @@ package testscript
 //@   requires ts != nil && ts.scriptFiles != nil && !ts.stopped && ts.scriptUpdates != nil && len(ts.background) == 0
 //@   nocall os.Environ
 //@   callee ts.params.Setup(env) (err): modifies F_S_testscript_Env_*, F_S_testscript_TestScript_deferred, H_Str, fs*, fd*, failBudget
-//@   modifies F_S_testscript_TestScript_workdir, F_S_testscript_TestScript_cd, F_S_testscript_TestScript_archive, F_S_testscript_TestScript_env, F_S_testscript_TestScript_envMap, F_S_testscript_TestScript_values, F_S_testscript_TestScript_deferred, F_S_testscript_Env_*, new F_S_txtar_Archive_*, H_*, fs*, fd*, M*, failBudget, gOpFailed
+//@   modifies F_S_testscript_TestScript_workdir, F_S_testscript_TestScript_cd, F_S_testscript_TestScript_archive, F_S_testscript_TestScript_env, F_S_testscript_TestScript_envMap, F_S_testscript_TestScript_values, F_S_testscript_TestScript_deferred, F_S_testscript_Env_*, new F_S_txtar_Archive_*, H_*, fs*, fd*, M*, failBudget, gOpFailed, gCleanup
 //@   at call os.Getenv#1: requires key == "PATH"
 //@   at call field:ts.params.Setup#1: requires env != nil && 10 <= len(env.Vars) && len(env.Vars) <= 12 && sameStr(env.WorkDir, ts.workdir) && sameStr(env.Cd, ts.workdir) && env.ts == ts
 //@   at call field:ts.params.Setup#1: requires at(env.Vars, lo(env.Vars)+2) == "GOTRACEBACK=system" && at(env.Vars, lo(env.Vars)+8) == "$=$"
